@@ -216,10 +216,8 @@ func (p *Program) resolveAnchors() {
 				if len(f.Params) != a.NParams || f.Signature.Results().Len() != a.NResults {
 					continue
 				}
-				// methods stay methods, functions stay functions
-				if (f.Signature.Recv() != nil) != strings.Contains(a.Name, ".") {
-					continue
-				}
+				// a function may have become a method of its first parameter's type or the reverse: the SSA
+				// parameter list (receiver first) is the same, so the rules' argument positions still hold
 				s := jaccard(a.FP, fps[f])
 				if len(a.FP) == 0 && len(fps[f]) == 0 {
 					s = 0.5 // nothing to compare: arity only
